@@ -7,7 +7,7 @@ import math
 from fractions import Fraction
 
 from common import MachineryError
-from usersemirings import Boolean, Float, MaxTimes, MaxPlus, Real, Expectation, Rat, sr_name  # noqa: F401
+from usersemirings import Boolean, Float, MaxTimes, MaxPlus, Real, Expectation, Rat, Log, sr_name  # noqa: F401
 from genlm.grammar.wfsa.base import EPSILON
 
 LIM = 2**30
@@ -67,6 +67,17 @@ def enc_w(R, w):
         return int(w.score)
     if name == "BM2":
         return list(w.score)
+    if name == "Rat" and R is Log:
+        # the real number exp(score); sums and products of the drivers' dyadic weights are rationals with small
+        # denominators, recovered exactly when the float is within 1e-12 of one (two such rationals differ by > 5e-8)
+        sc = float(w.score)
+        if math.isnan(sc) or sc == math.inf:
+            raise NonFinite(f"non-finite weight Log({sc})")
+        v = math.exp(sc) if sc != -math.inf else 0.0
+        q = Fraction(v).limit_denominator(4096)
+        if abs(float(q) - v) <= 1e-12 * max(1.0, abs(v)):
+            return enc_rat(q)
+        return enc_rat(v)
     if name == "Rat":
         return enc_rat(w if R is Float else w.score)
     if name == "MaxTimes":
